@@ -93,6 +93,7 @@ def draw_features(ctx, base=None, allow=("subtypes", "constants", "neg", "equali
         feat[k] = c.chance(3, 4)
     feat["max_objects"] = 3 + c.draw(3) if c.draw(8) else 6 + c.draw(3)
     feat["max_actions"] = 1 + c.draw(3) if c.draw(8) else 4 + c.draw(2)
+    feat["long_names"] = c.draw(12) == 0
     feat.update(base or {})
     return feat
 
